@@ -135,8 +135,12 @@ def gen_spec(rng, fx, k, counters):
             o["lifetime"] = True
         if rng.random() < 0.2:
             o["legend"] = False
+        if rng.random() < 0.3:
+            o["colormap"] = rng.choice(("ggplot", "ggplot", "bmh", "default"))
         s.update(ds=[rng.randrange(nd) for _ in range(n)], as_list=n > 1 or rng.random() < 0.5, opts=o,
                  rep={"ds": [rng.choice(("f64", "f64", "i64", "f32")) for _ in range(n)]})
+        if rng.random() < 0.5:
+            s["ax"] = "none"
     elif kind in ("bottleneck_matching", "wasserstein_matching"):
         s.update(a=rng.randrange(nd), b=rng.randrange(nd), rep={"a": rng.choice(("f64", "i64", "f32")), "b": rng.choice(("f64", "i64"))})
     elif kind == "plot_landscape_simple":
@@ -263,6 +267,8 @@ def site_of(spec):
         return "weight.%s" % spec.get("which")
     if fn == "obj":
         return "%s.%s" % (spec.get("kind"), (spec.get("call") or {}).get("m"))
+    if fn == "plot_diagrams" and spec.get("ax") == "none":
+        return "plot_diagrams(ax=None)"
     return fn
 
 
